@@ -14,7 +14,7 @@ import shutil
 ID = "C09"
 RULE = ("netlists of 2-6 single-trunk-orthogon modules packed legally in a die (slots with clearance): soft (0-2 branches per side), hard with 1 or several rectangles, fixed; integer and decimal "
         "coordinates, int and float YAML numbers; ratio limit in {1.5,2,3}; unit sizes 0.5..25 (dies 2..600); per model: the input configuration, legal variations (translation into free space, "
-        "branch slid along its side, branch depth reduced) and one illegal variation per clause (outside die, ratio, area, gap, overhang, same-side overlap, inter-module overlap, hard reshaped, "
+        "branch slid along its side, branch depth reduced) and one illegal variation per clause (outside die, ratio, area, gap, overhang, same-side overlap, same-side order swapped, inter-module overlap, hard reshaped, "
         "hard branch offset, fixed moved); non-trivial = every model with >=2 modules; distinct = distinct (netlist, die, limit)")
 ASSUMPTIONS = [
     "the process-wide slack is annealed to its documented end value 0 before evaluation (is_equation_met keeps its own 1e-6 absolute slack)",
@@ -25,7 +25,7 @@ ASSUMPTIONS = [
 CASES = {"quick": 160, "thorough": 4000}
 MIN_CASES = {"quick": 40, "thorough": 800}
 REQUIRED_COUNTERS = ["models_built", "equations_evaluated", "config:input", "config:legal_translate", "config:legal_slide", "config:legal_shrink_branch",
-                     "config:illegal_outside", "config:illegal_ratio", "config:illegal_area", "config:illegal_gap", "config:illegal_overhang", "config:illegal_same_side_overlap",
+                     "config:illegal_outside", "config:illegal_ratio", "config:illegal_area", "config:illegal_gap", "config:illegal_overhang", "config:illegal_same_side_overlap", "config:illegal_swapped_order",
                      "config:illegal_inter_overlap", "config:illegal_hard_reshaped", "config:illegal_hard_branch_offset", "config:illegal_fixed_moved",
                      "kind:soft", "kind:hard_multi", "kind:hard_single", "kind:fixed"]
 SOFT_DEADLINE = {"quick": 240, "thorough": 3300}
@@ -306,6 +306,23 @@ def variations(case, rng):
                 else:
                     cfg[(mod["name"], same[1])] = (b[0], a[1] + a[3] / 2 + b[3] / 2 - 0.3 * min(a[3], b[3]), b[2], b[3])
                 out.append(("illegal_same_side_overlap", False, {"Intra"}, cfg))
+                # the two branches exchange their places along the side (no overlap, still attached and inside the extent): only the original order is broken
+                cfg = dict(base)
+                if role2 in "NS":
+                    lo = min(a[0] - a[2] / 2, b[0] - b[2] / 2)
+                    hi = max(a[0] + a[2] / 2, b[0] + b[2] / 2)
+                    first, second = (a, b) if a[0] < b[0] else (b, a)
+                    ia, ib = (same[0], same[1]) if a[0] < b[0] else (same[1], same[0])
+                    cfg[(mod["name"], ib)] = (lo + second[2] / 2, second[1], second[2], second[3])
+                    cfg[(mod["name"], ia)] = (hi - first[2] / 2, first[1], first[2], first[3])
+                else:
+                    lo = min(a[1] - a[3] / 2, b[1] - b[3] / 2)
+                    hi = max(a[1] + a[3] / 2, b[1] + b[3] / 2)
+                    first, second = (a, b) if a[1] < b[1] else (b, a)
+                    ia, ib = (same[0], same[1]) if a[1] < b[1] else (same[1], same[0])
+                    cfg[(mod["name"], ib)] = (second[0], lo + second[3] / 2, second[2], second[3])
+                    cfg[(mod["name"], ia)] = (first[0], hi - first[3] / 2, first[2], first[3])
+                out.append(("illegal_swapped_order", False, {"Intra"}, cfg))
                 break
     if softs:
         mod = rng.choice(softs)
